@@ -197,6 +197,14 @@ Theorem C12_window_closed_by_done :
 Proof. exact completed_by_done. Qed.
 Print Assumptions C12_window_closed_by_done.
 
+(* ... and a completed checkpoint stays recorded by every later operation, stops and restarts included: together with
+   the two theorems above, [(i, t) ∈ completed s] reads at trace level as "some earlier step of the history was
+   [Cks i] issuing stamp t, or the effective, non-failing [Done] of the Put stamped t". *)
+Theorem C12_completed_monotone :
+  forall c s o s' out x, step c s o = Some (s', out) -> In x (completed s) -> In x (completed s').
+Proof. exact completed_mono. Qed.
+Print Assumptions C12_completed_monotone.
+
 Theorem C12_loss_window :
   forall c ops s,
   c_ordered c = true -> run c init ops = Some s ->
